@@ -53,6 +53,13 @@ func runC14(c *Ctx) {
 	ruleVectoredEquiv(c, p, "C14.equiv")
 	ruleExitGuards(c, p, "C14.guard")
 	ruleNoCapInEncoders(c, p, "C14.lenonly")
+	ruleChainScratch(c, p, "C14.chain-scratch")
+	for _, cfg := range c.Configs() {
+		if pc := c.Prog(cfg); pc != nil {
+			ruleBufGrowByAppend(c, pc, "C14.grow")
+			ruleEveryElement(c, pc, "C14.every")
+		}
+	}
 	if roles := resolveDo(c, p); roles != nil {
 		// the client-level flush discipline that keeps zero-copy chained slices valid until they are written
 		ruleInputStream(c, p, roles, "C14.input")
@@ -673,4 +680,114 @@ func throughHelperResult(v ssa.Value) ssa.Value {
 		return v
 	}
 	return only.Results[idx]
+}
+
+// ---- chain-scratch (C14 / C16 / C09): memory handed to ChainWrite is not rewritten before Flush
+// chainScratch examines the ChainWrite calls of fn on locally allocated buffers: for each, the witness
+// of a later write to that buffer (nil when there is none).
+func chainScratch(fn *ssa.Function) (calls []ssa.CallInstruction, later []*core.Witness) {
+	baseOf := func(v ssa.Value) ssa.Value {
+		for d := 0; d < 8; d++ {
+			switch x := v.(type) {
+			case *ssa.Slice:
+				v = x.X
+			case *ssa.ChangeType:
+				v = x.X
+			case *ssa.UnOp:
+				// a local captured by a closure lives in a cell: follow its single store
+				cell, ok := x.X.(*ssa.Alloc)
+				if !ok || x.Op != token.MUL {
+					return nil
+				}
+				var stored ssa.Value
+				ns := 0
+				for _, r := range *cell.Referrers() {
+					if st, ok := r.(*ssa.Store); ok && st.Addr == cell {
+						stored = st.Val
+						ns++
+					}
+				}
+				if ns != 1 {
+					return nil
+				}
+				v = stored
+			case *ssa.MakeSlice, *ssa.Alloc:
+				return v
+			default:
+				return nil
+			}
+		}
+		return nil
+	}
+	for _, call := range core.FindCalls(fn, isWriterMethod("ChainWrite")) {
+		args := call.Common().Args
+		if len(args) < 2 {
+			continue
+		}
+		base := baseOf(args[1])
+		if base == nil {
+			continue
+		}
+		call := call
+		writes := func(in ssa.Instruction) bool {
+			switch x := in.(type) {
+			case *ssa.Store:
+				if ia, ok := x.Addr.(*ssa.IndexAddr); ok && baseOf(ia.X) == base {
+					return true
+				}
+			case *ssa.Call:
+				if ssa.CallInstruction(x) == call {
+					return false
+				}
+				f := core.CalleeFunc(x)
+				isCopy := false
+				if bi, ok := x.Call.Value.(*ssa.Builtin); ok && bi.Name() == "copy" {
+					isCopy = true
+				}
+				if isCopy || (f != nil && f.Pkg() != nil && f.Pkg().Path() == "encoding/binary" && strings.HasPrefix(f.Name(), "Put")) {
+					for i, a := range x.Call.Args {
+						if baseOf(a) == base && (i == 0 || (!isCopy && i == 1 && x.Call.Signature().Recv() != nil)) {
+							return true
+						}
+					}
+				}
+			}
+			return false
+		}
+		// re-executing the allocation yields a fresh object: only writes reached without passing it again count
+		fresh := func(in ssa.Instruction) bool {
+			v, ok := in.(ssa.Value)
+			return ok && v == base
+		}
+		w := core.ReachAvoiding(core.PointOf(call.(ssa.Instruction)), writes, fresh, nil)
+		calls = append(calls, call)
+		if len(w) > 0 {
+			later = append(later, &w[0])
+		} else {
+			later = append(later, nil)
+		}
+	}
+	return
+}
+
+func ruleChainScratch(c *Ctx, p *core.Program, rule string) {
+	c.R.Rule(rule, "Writer.ChainWrite records its argument by reference until Flush: in package proto, a slice of a buffer the function itself allocated (make / local array) that is handed to ChainWrite is not written again on any path after the call (PutUvarint / Put* / copy into it, indexed stores) - a per-row scratch slice chained and then refilled for the next row makes every chained prefix carry the last row's bytes")
+	cfg := p.Cfg.Name
+	n := 0
+	for _, fn := range p.Funcs() {
+		if pkgOf(fn) == nil || pkgOf(fn).Path() != core.PkgProto || fn.Blocks == nil || strings.HasPrefix(fn.Name(), "verifFixture") {
+			continue
+		}
+		calls, later := chainScratch(fn)
+		for i, call := range calls {
+			n++
+			key := core.CallKey(fn, call) + "/scratch"
+			if later[i] != nil {
+				c.R.Bad(rule, key, cfg, p.Pos(later[i].At.Pos()), "a locally allocated buffer is written again after a slice of it was handed to ChainWrite: the writer still references it, so what is flushed is the later contents", p.TrailString(*later[i])...)
+			} else {
+				c.R.Ok(rule, key, cfg, p.Pos(call.Pos()), "the chained local buffer is not written afterwards")
+			}
+		}
+	}
+	c.R.Count("ChainWrite calls on locally allocated buffers["+cfg+"]", n)
 }
